@@ -208,9 +208,9 @@ func (a *Adapter) Finish(rng *rand.Rand, maxSteps int, probe bool) bool {
 }
 
 // History returns the events recorded so far (for explorers).
-func (a *Adapter) History() []map[string]interface{} { return a.hist }
-func (a *Adapter) Run() *sched.Run                  { return a.run }
-func (a *Adapter) Obj() Object                      { return a.obj }
+func (a *Adapter) History() []map[string]interface{}    { return a.hist }
+func (a *Adapter) Run() *sched.Run                      { return a.run }
+func (a *Adapter) Obj() Object                          { return a.obj }
 func (a *Adapter) AppendHist(ev map[string]interface{}) { a.hist = append(a.hist, ev) }
 func (a *Adapter) EndHistory() {
 	a.flushHist()
